@@ -64,6 +64,7 @@ class Ctx:
         self.notes = []
         self.uses_pi = False
         self.max_forks = 400
+        self.unit_exprs = {}               # ids of simplified sum-of-squares terms the harness declared equal to 1
 
     def fresh_real(self, prefix):
         self.fresh += 1
@@ -77,8 +78,22 @@ class Ctx:
             ent = (v, fname, tuple(args))
             self.atoms[key] = ent
             self.where[v.get_id()] = _repo_site()
+            d = []
             if mk_defs is not None:
-                d = mk_defs(v, *args)
+                d = list(mk_defs(v, *args))
+            if fname in ("sin", "cos") and len(args) == 1:
+                other = self.atoms.get(("cos" if fname == "sin" else "sin", args[0].get_id()))
+                if other is not None:
+                    pyth = [v * v + other[0] * other[0] == 1]
+                    d = d + pyth
+                    od, oa = self.defof.get(other[0].get_id(), ([], other[2]))
+                    self.defof[other[0].get_id()] = (list(od) + pyth, oa)
+            if fname == "tan" and len(args) == 1:
+                sn = self.atoms.get(("sin", args[0].get_id()))
+                cs = self.atoms.get(("cos", args[0].get_id()))
+                if sn is not None and cs is not None:
+                    d = d + [v * cs[0] == sn[0]]
+            if d:
                 self.defs.extend(d)
                 self.defof[v.get_id()] = (d, tuple(args))
         self.events.append(ent + (self.scope,))
@@ -90,6 +105,16 @@ class Ctx:
         if isinstance(b, (bool, np.bool_)):
             b = z3.BoolVal(bool(b))
         self.assumptions.append(b)
+
+    def declare_unit(self, comps):
+        """the harness assumes sum(c*c for c in comps) == 1: norms of that vector simplify to exact 1"""
+        e = None
+        for cpt in comps:
+            t = zexpr(cpt) * zexpr(cpt)
+            e = t if e is None else e + t
+        s = simp(e)
+        self.unit_exprs[s.get_id()] = s
+        self.assumptions.append(e == 1)
 
     def all_facts(self):
         out = list(self.assumptions) + list(self.pc) + list(self.defs)
@@ -173,6 +198,24 @@ def is_sym(x):
     return False
 
 
+def _lead_neg(a):
+    """deterministic sign of an expression's leading coefficient: exactly one of e, -e is 'negative' (cheap canonical choice)"""
+    for _ in range(50):
+        if z3.is_rational_value(a):
+            return a.numerator_as_long() < 0
+        k = a.decl().kind()
+        if k == z3.Z3_OP_UMINUS:
+            return True
+        if k == z3.Z3_OP_MUL:
+            c0 = a.arg(0)
+            return z3.is_rational_value(c0) and c0.numerator_as_long() < 0
+        if k == z3.Z3_OP_ADD:
+            a = a.arg(0)
+            continue
+        return False
+    return False
+
+
 def _is_zero(e):
     return z3.is_rational_value(e) and e.numerator_as_long() == 0
 
@@ -238,10 +281,7 @@ class SR:
         if isinstance(v, SR):
             self.e, self.c = v.e, v.c
         elif isinstance(v, z3.ExprRef):
-            if z3.is_rational_value(v) and False:
-                self.e, self.c = v, None
-            else:
-                self.e, self.c = v, None
+            self.e, self.c = v, None
         elif isinstance(v, SB):
             cv = conc(v)
             if cv is not None:
@@ -373,10 +413,9 @@ class SR:
             if _is_zero(a) and fname in ("cos", "exp"):
                 return SR(z3.RealVal(1))
         par = {"sin": -1, "tan": -1, "atan": -1, "asin": -1, "cos": 1}.get(fname)
-        if par is not None:
+        if par is not None and _lead_neg(a):
             na = simp(-self.e)
-            sa, sna = a.sexpr(), na.sexpr()
-            if len(sna) < len(sa) or (len(sna) == len(sa) and sna < sa):
+            if not _lead_neg(na):
                 v = SR(ctx().atom(fname, [na], cons))
                 return v if par == 1 else -v
         return SR(ctx().atom(fname, [a], cons))
@@ -391,10 +430,10 @@ class SR:
                 raise ZeroDivisionError("division by exact zero")
             return SR(simp(1 / a))
         # sign-canonical: inv(-x) = -inv(x)
-        na = simp(-self.e)
-        sa, sna = a.sexpr(), na.sexpr()
-        if len(sna) < len(sa) or (len(sna) == len(sa) and sna < sa):
-            return -SR(ctx().atom("inv", [na], lambda v, x: [v * x == 1]))
+        if _lead_neg(a):
+            na = simp(-self.e)
+            if not _lead_neg(na):
+                return -SR(ctx().atom("inv", [na], lambda v, x: [v * x == 1]))
         return SR(ctx().atom("inv", [a], lambda v, x: [v * x == 1]))
 
     def sqrt(self):
